@@ -27,7 +27,7 @@ def one_case(rng, tier):
 
 
 def generate(rng, tier):
-    n = 1500 if tier == "quick" else 30000
+    n = 4000 if tier == "quick" else 40000
     cases = [one_case(rng, tier) for _ in range(n)]
     cases += ["allchar ; str 2 97 98 ; inter 0 1 ; startc 2 97 ; char 99 ; concat 3 2 ; startc 4 99"]
     info = {"rule": "intersections, and concatenations / loops whose operands are semantically but not syntactically empty, plus random terms; start_char at every class representative, both end points and the characters outside; start_class on valid and invalid ids; non-trivial = at least one operator",
